@@ -205,6 +205,8 @@ def check(run, prog):
                 if lo is not None:
                     ck.eq("R3", f_coh.where, "arbitrary supplied chirp: crop " + tag, "the crop does not depend on how the chirp was obtained",
                           lo3 + 1000 * hi3, lo + 1000 * hi, constraints=_big_delay(cons))
+    from .. import structural
+    structural.report(ck, prog, "R2", [f_chirp, f_tf, f_cfs, f_coh], "pulsarbat/transforms/dedispersion.py")
     run.extra["decided_by"] = ck.how
 
 
